@@ -8,6 +8,7 @@ import (
 	"fmt"
 	"strconv"
 	"strings"
+	"unicode/utf8"
 )
 
 type vbuf struct {
@@ -28,6 +29,7 @@ type vterm struct {
 	title     string
 	unknown   []string // sequences outside the alphabet
 	pending   []byte   // incomplete escape sequence
+	utf8      bool     // decode UTF-8 and give wide characters two cells
 }
 
 func newVterm(w, h int) *vterm {
@@ -61,7 +63,19 @@ func (b *vbuf) text(r int) string {
 	if r < 0 || r >= len(b.rows) {
 		return ""
 	}
-	return strings.TrimRight(string(b.rows[r]), " ")
+	row := b.rows[r]
+	for _, ch := range row {
+		if ch == 0 { // continuation cells of wide characters are not characters
+			out := make([]rune, 0, len(row))
+			for _, c := range row {
+				if c != 0 {
+					out = append(out, c)
+				}
+			}
+			return strings.TrimRight(string(out), " ")
+		}
+	}
+	return strings.TrimRight(string(row), " ")
 }
 
 func (t *vterm) lineFeed() {
@@ -146,10 +160,55 @@ func (t *vterm) write(p []byte) {
 		case c < 0x20 || c == 0x7f:
 			t.unknown = append(t.unknown, fmt.Sprintf("ctl %#x", c))
 			i++
+		case c >= 0x80 && t.utf8:
+			// (only the `wide` scenario switches this on: the streams that are compared with the
+			// Lean terminal semantics keep one cell per byte)
+			if !utf8.FullRune(data[i:]) {
+				t.pending = append([]byte(nil), data[i:]...)
+				return
+			}
+			r, n := utf8.DecodeRune(data[i:])
+			t.putWide(r, runeCells(r))
+			i += n
 		default:
 			t.put(rune(c))
 			i++
 		}
+	}
+}
+
+// runeCells: the cells a character takes (the oracle's own table: CJK ideographs, Hangul,
+// full-width forms and the common emoji block take two; everything else generated here one).
+func runeCells(r rune) int {
+	switch {
+	case r >= 0x1100 && r <= 0x115f, r >= 0x2e80 && r <= 0xa4cf, r >= 0xac00 && r <= 0xd7a3,
+		r >= 0xf900 && r <= 0xfaff, r >= 0xfe30 && r <= 0xfe6f, r >= 0xff00 && r <= 0xff60,
+		r >= 0xffe0 && r <= 0xffe6, r >= 0x1f300 && r <= 0x1f64f:
+		return 2
+	}
+	return 1
+}
+
+// putWide prints a character of 1 or 2 cells (xterm: a wide character that does not fit in
+// the last column wraps first; its second cell holds the continuation marker 0).
+func (t *vterm) putWide(ch rune, cells int) {
+	if cells == 1 {
+		t.put(ch)
+		return
+	}
+	b := t.buf()
+	if b.pw || b.cc+2 > t.w {
+		b.cc = 0
+		b.pw = false
+		t.lineFeed()
+	}
+	b.set(b.cr, b.cc, ch)
+	b.set(b.cr, b.cc+1, 0)
+	if b.cc+2 >= t.w {
+		b.cc = t.w - 1
+		b.pw = true
+	} else {
+		b.cc += 2
 	}
 }
 
